@@ -134,6 +134,11 @@ func (l *lexer) next() bool {
 			if ch == '\n' {
 				l.line++
 				comment = false
+			} else if comment {
+				// a comment that began right after a token's last character
+				// lasts to the end of the line; ending the token at the first
+				// blank inside it turned the comment's later words into tokens
+				continue
 			}
 			if len(val) > 0 {
 				return makeToken()
